@@ -6,6 +6,6 @@ func init() {
 	plans["C37"] = Plan{Pkg: pkg("C37"), Steps: []Step{
 		// one rapid check = one sweep over the configurations of the shard's server key sizes
 		// (the test partitions by VERIF_SHARD: quick by policy, thorough by the 5 server key sizes)
-		{Run: "TestInterop", Quick: 1, Thorough: 2, QShards: 6, TShards: 5, FullChecks: true, QTimeout: 10 * time.Minute, TTimeout: 60 * time.Minute},
+		{Run: "TestInterop", Quick: 3, Thorough: 6, QShards: 6, TShards: 5, FullChecks: true, QTimeout: 10 * time.Minute, TTimeout: 60 * time.Minute},
 	}}
 }
